@@ -73,9 +73,9 @@ PLAN = {
     },
     "C15": {
         "level": "fault_enumeration",
-        "rule": "A64: 32 installs per scenario; fake addresses sweep each 16-bit chunk value in each of the 4 positions (index-driven) with seeded other chunks; every 4th scenario steers the trampoline displacement with a one-free-page neighbourhood and a buggified kernel; distinct = (mode, chunk position, offset class, layout, policy) tuples",
+        "rule": "A64: scenario index drives a sweep of fake addresses (32 installs per sweep scenario; 32768 scenarios cover every 16-bit chunk value in each of the 4 positions, quick covers the first 12000), interleaved with seeded 64-bit fakes, displacement steering through a one-free-page neighbourhood at both window edges, and a buggified kernel; distinct = (mode, chunk position, offset class, layout, policy) tuples",
         "assumptions": [A_S],
-        "parts": [s_part("S-a64-encodings", "C15", "aarch64_linux", 33000, 4000000)],
+        "parts": [s_part("S-a64-encodings", "C15", "aarch64_linux", 12000, 1048576)],
     },
     "C16": {
         "level": "fault_enumeration",
